@@ -1,5 +1,5 @@
 (* Props/C11.v -- property theorems for C11 only. *)
-From LV Require Import Base FS FSFacts LayerShared LayerSharedFacts.
+From LV Require Import Base FS FSFacts LayerShared LayerSharedFacts LayerSharedGone.
 From LVGen Require Import GenLayerShared.
 
 Theorem c11_tables :
@@ -25,6 +25,32 @@ Proof.
   exact (proj1 (rdr_frame true fuel d s s' r Vd Vs R (or_introl eq_refl) H)).
 Qed.
 Print Assumptions c11_rdr_outside_untouched.
+
+(* the layer is gone: when the removal reports success, nothing at or below the directory remains --
+   for every parent-closed file system, tree shape, permission assignment and symlink placement *)
+Theorem c11_rdr_gone :
+  forall fuel d s s',
+    valid_path d -> valid_fs s -> real_dirs s [] d -> parent_closed s ->
+    remove_dir_recursively rdr_checks_symlink fuel d s = (s', Ok tt) ->
+    parent_closed s' /\ forall r, pget (d ++ r) s' = None.
+Proof.
+  intros fuel d s s' Vd Vs R PC H.
+  exact (rdr_gone true fuel d s s' Vd Vs R PC (or_introl eq_refl) H).
+Qed.
+Print Assumptions c11_rdr_gone.
+
+Theorem c11_delete_layer_tree_gone :
+  forall layers n s s1 s',
+    valid_path layers -> valid_name n = true -> valid_fs s -> real_dirs s [] (layers ++ [n]) -> parent_closed s ->
+    remove_dir_recursively true (rdr_fuel s) (layers ++ [n]) s = (s1, Ok tt) ->
+    delete_layer rdr_checks_symlink delete_layer_removes_sboms sbom_suffixes layers n s = (s', Ok tt) ->
+    forall r, pget (layers ++ [n] ++ r) s' = None.
+Proof.
+  intros layers n s s1 s' Vl Vn Vf R PC HR H.
+  apply (delete_layer_tree_gone sbom_suffixes layers n s s1 s' Vl Vn); try assumption.
+  repeat constructor.
+Qed.
+Print Assumptions c11_delete_layer_tree_gone.
 
 (* delete_layer: only <layers>/<name>/**, <layers>/<name>.toml and the layer's SBOM files *)
 Theorem c11_outside_untouched :
